@@ -139,14 +139,15 @@ ScanNum(s, i) ==
 RankDate(c) == CASE c = cY -> 1 [] c = cM -> 2 [] c = cW -> 3 [] c = cD -> 4 [] OTHER -> 0
 RankTime(c) == CASE c = cH -> 5 [] c = cM -> 6 [] c = cS -> 7 [] OTHER -> 0
 RECURSIVE ScanAll(_, _, _, _, _)
-\* returns a sequence of [int, frac, rank] or <<"bad">>
+\* returns [ok, cs]: cs a sequence of [int, frac, rank]
+BadScan == [ok |-> FALSE, cs |-> <<>>]
 ScanAll(s, i, inTime, lastRank, acc) ==
-  IF i > Len(s) THEN acc
-  ELSE IF s[i] = cT THEN (IF inTime \/ i = Len(s) THEN <<"bad">> ELSE ScanAll(s, i + 1, TRUE, Max(lastRank, 4), acc))
+  IF i > Len(s) THEN [ok |-> TRUE, cs |-> acc]
+  ELSE IF s[i] = cT THEN (IF inTime \/ i = Len(s) THEN BadScan ELSE ScanAll(s, i + 1, TRUE, Max(lastRank, 4), acc))
   ELSE LET t == ScanNum(s, i) IN
-       IF ~t.ok THEN <<"bad">>
+       IF ~t.ok THEN BadScan
        ELSE LET r == IF inTime THEN RankTime(t.des) ELSE RankDate(t.des) IN
-            IF r = 0 \/ r <= lastRank THEN <<"bad">>
+            IF r = 0 \/ r <= lastRank THEN BadScan
             ELSE ScanAll(s, t.next, inTime, r, acc \o <<[int |-> t.int, frac |-> t.frac, rank |-> r]>>)
 \* seconds per unit by rank (weeks, days, hours, minutes, seconds)
 UnitSec(r) == CASE r = 3 -> 604800 [] r = 4 -> 86400 [] r = 5 -> 3600 [] r = 6 -> 60 [] r = 7 -> 1
@@ -162,8 +163,10 @@ BNDivPow10(a, e) ==      \* <<quotient, remainder-is-zero, first-dropped-digit, 
            r == BNDivPow10(x.q, e - 1)
        IN IF e = 1 THEN [q |-> x.q, d |-> x.r, rest |-> FALSE, any |-> x.r # 0]
           ELSE [q |-> r.q, d |-> r.d, rest |-> r.rest \/ x.r # 0, any |-> r.any \/ x.r # 0]
-FracUsOf(c) == LET num == BNMulSmall(BNMulSmall(BNMulSmall(BNOfDigits(c.frac), UnitSec(c.rank) \div (IF c.rank = 3 THEN 7 ELSE 1)),
-                                                (IF c.rank = 3 THEN 7 ELSE 1)), 1000000)  \* f * u * 10^6 ... in two factors for weeks
+FracUsOf(c) == LET u1 == IF c.rank = 3 THEN 86400 ELSE UnitSec(c.rank)
+                   u2 == IF c.rank = 3 THEN 7 ELSE 1
+                   \* f * unit seconds * 10^6, every factor <= 200000
+                   num == BNMulSmall(BNMulSmall(BNMulSmall(BNMulSmall(BNOfDigits(c.frac), u1), u2), 1000), 1000)
                    x == BNDivPow10(num, Len(c.frac))
                IN [q |-> x.q, tie |-> x.d = 5 /\ ~x.rest, up |-> x.d > 5 \/ (x.d = 5 /\ x.rest)]
 \* a BigNat of seconds -> <<days, secs>> or "big" when days do not fit (timedelta holds < 10^9 days)
@@ -173,8 +176,8 @@ RECURSIVE SumSec(_, _)
 SumSec(cs, i) == IF i > Len(cs) THEN <<>> ELSE IF cs[i].rank <= 2 THEN SumSec(cs, i + 1) ELSE BNAdd(CompSec(cs[i]), SumSec(cs, i + 1))
 RecDuration(s) ==
   IF Len(s) < 2 \/ s[1] # cP THEN Invalid
-  ELSE LET cs == ScanAll(s, 2, FALSE, 0, <<>>) IN
-  IF cs = <<"bad">> \/ cs = <<>> THEN Invalid
+  ELSE LET sc == ScanAll(s, 2, FALSE, 0, <<>>)  cs == sc.cs IN
+  IF ~sc.ok \/ Len(cs) = 0 THEN Invalid
   ELSE LET n == Len(cs)
            hasW == \E i \in 1..n : cs[i].rank = 3
            fracIdx == {i \in 1..n : cs[i].frac # <<>>}
@@ -185,9 +188,17 @@ RecDuration(s) ==
                    secs == SumSec(cs, 1)
                    fr == IF fracIdx = {} THEN [q |-> <<>>, tie |-> FALSE, up |-> FALSE] ELSE FracUsOf(cs[n])
                    \* whole microseconds of the fraction: q = sq seconds + uq microseconds
-                   fq == BNDivSmall(fr.q, 1000000)
+                   fq1 == BNDivSmall(fr.q, 1000)
+                   fq2 == BNDivSmall(fq1.q, 1000)
+                   fq == [q |-> fq2.q, r |-> fq2.r * 1000 + fq1.r]            \* division by 10^6 in two steps
                    tot == SecToDS(BNAdd(secs, fq.q))
-               IN [ok |-> TRUE, y |-> yy, mo |-> mm, big |-> tot.big \/ BNToInt(yy) < 0 \/ BNToInt(mm) < 0,
+                   \* the native timedelta also carries 365 days per year and 30 per month: all of it must fit
+                   allDays == BNDivSmall(BNAdd(BNAdd(secs, fq.q), BNAdd(BNMulSmall(BNMulSmall(yy, 365), 86400),
+                                                                          BNMulSmall(BNMulSmall(mm, 30), 86400))), 86400).q
+                   maxdig == LET RECURSIVE mx(_) mx(i) == IF i > n THEN 0 ELSE Max(Len(cs[i].int), mx(i + 1)) IN mx(1)
+               IN [ok |-> TRUE, y |-> yy, mo |-> mm,
+                   big |-> tot.big \/ BNToInt(yy) < 0 \/ BNToInt(mm) < 0 \/ BNToInt(allDays) < 0 \/ BNToInt(allDays) > 999999999,
+                   maxdigits |-> maxdig,
                    rest |-> (IF tot.big THEN <<0, 0, 0>> ELSE D3Add(<<tot.ds[1], tot.ds[2], fq.r>>, IF fr.up THEN <<0, 0, 1>> ELSE <<0, 0, 0>>)),
                    tie |-> fr.tie, hasfrac |-> fracIdx # {}, fraclen |-> (IF fracIdx = {} THEN 0 ELSE Len(cs[n].frac)),
                    ncomp |-> n]
